@@ -215,7 +215,7 @@ PowN(b, n) == IF n = 0 THEN 1 ELSE b * PowN(b, n - 1)
 \* the Stride-sample is taken here, before anything is materialised (21^4 codes x 10 configurations
 \* exceed TLC's limit on explicit sets); code + cfg are sampled together so that every cfg meets every residue class
 PureInstances == {<<"pure", p[1], p[2]>> : p \in {q \in (1..(PowN(NPure + 1, PureLen) - 1)) \X (0..(Len(Stores) * Len(Kinds) - 1)) :
-                                                  (q[1] + q[2]) % Stride = Offset % Stride}}
+                                                  (q[1] + q[2] + (q[1] \div Stride) + (q[1] \div (Stride * Stride))) % Stride = Offset % Stride}}
 RECURSIVE Digits(_, _)
 Digits(c, n) == IF n = 0 THEN <<>> ELSE <<c % (NPure + 1)>> \o Digits(c \div (NPure + 1), n - 1)
 PureSeq(c) == SelectSeq(Digits(c, PureLen), LAMBDA d : d # 0)
@@ -266,7 +266,7 @@ Instances(L) ==
 \* all cases: <<L, chunk, instance>>
 AllCases == UNION {{<<L, c, x>> : c \in (IF IsPure THEN {1} ELSE 1..NChunks(L)), x \in Instances(L)} : L \in Ls}
 CaseSeq == SetToSeq(AllCases)
-PickedSeq == SelectSeq([j \in 1..Len(CaseSeq) |-> <<j, CaseSeq[j]>>], LAMBDA p : IsPure \/ p[1] % Stride = Offset % Stride)
+PickedSeq == SelectSeq([j \in 1..Len(CaseSeq) |-> <<j, CaseSeq[j]>>], LAMBDA p : IsPure \/ (p[1] + (p[1] \div Stride) + (p[1] \div (Stride * Stride))) % Stride = Offset % Stride)
 
 CaseId(cs) == "L" \o ToString(cs[1]) \o ".c" \o ToString(cs[2]) \o "." \o cs[3][1] \o "." \o ToString(cs[3][2]) \o "." \o ToString(cs[3][3])
 
